@@ -25,8 +25,11 @@ def ctor_rules(run, F):
             if not ti or 'size' not in ti[0]:
                 continue
             inst = '%s<%s>' % (tk, ti[0]['ty'])
-            ok = not rec['has_user_copy_ctor'] and not rec['has_user_copy_assign'] and not rec['has_user_move_ctor']
-            run.ob('C07.b', '%s has no user-declared copy operations (copies are memberwise: storage and payloadSet travel together)' % inst,
+            # memberwise = implicit or explicitly defaulted (`= default` on the declaration); only a *user-provided* body can copy less
+            prov_ctors = [c for c in rec.get('ctors', []) if c.get('ctorkind') in ('copy', 'move') and c.get('user_provided')]
+            prov_asg = [f for f in F.fns if f.cls == rec['name'] and f.m == 'operator=' and f.body is not None and not f.d.get('implicit') and not f.d.get('defaulted')]
+            ok = not prov_ctors and not prov_asg
+            run.ob('C07.b', '%s has no user-provided copy operations (copies are memberwise: storage and payloadSet travel together)' % inst,
                    ok, where=rec.get('l'), key='%s has user-declared copy operations' % tk)
             ps = [f for f in rec['fields'] if f['n'] == 'payloadSet']
             run.ob('C07.b', '%s::payloadSet defaults to false' % inst,
